@@ -82,6 +82,63 @@ example : ([((10 : Int), (3 : Int)), (20, 6), (30, 10)].length ≤ 3)
     ∧ (∀ p ∈ [((10 : Int), (3 : Int)), (20, 6), (30, 10)], ((3 : Nat) : Int) * p.2 ≤ p.1 ∧ p.1 ≤ ((3 : Nat) : Int) * p.2 + ((3 : Nat) : Int))
     ∧ (((3 : Nat) : Int) * 6 ≤ ([((10 : Int), (3 : Int)), (20, 6), (30, 10)].map (·.2)).sum) := by decide
 
+/-- plane level ("independently for every channel of every pixel"): entry i of the plane `threshold_impl` produces depends on entry i
+    of the source only and is the documented comparison, converted to the result channel type; the plane keeps its length -/
+theorem C16_threshold_plane (s d : Ch) (k : Kind) (t mx : Int) (plane : List Int) (i : Nat) (hi : i < plane.length)
+    (hdef : (functor s d k 0 0 0).isSome = true)
+    (hs : s.lo ≤ plane.getD i 0 ∧ plane.getD i 0 ≤ s.hi) (ht : d.lo ≤ t ∧ t ≤ d.hi) (hm : d.lo ≤ mx ∧ mx ≤ d.hi) :
+    (thresholdPlane s d k t mx plane).length = plane.length
+    ∧ (thresholdPlane s d k t mx plane).getD i 0 = d.wrap (thresholdSpec k (plane.getD i 0) t mx) := by
+  unfold thresholdPlane
+  refine ⟨List.length_map _, ?_⟩
+  rw [List.getD_eq_getElem?_getD, List.getElem?_map, List.getD_eq_getElem?_getD, List.getElem?_eq_getElem hi]
+  simp only [Option.map_some, Option.getD_some]
+  have hs' : s.lo ≤ plane[i] ∧ plane[i] ≤ s.hi := by
+    rw [List.getD_eq_getElem?_getD, List.getElem?_eq_getElem hi] at hs; exact hs
+  cases hf : functor s d k plane[i] t mx with
+  | none => cases s <;> cases d <;> simp [functor] at hf hdef
+  | some r => exact C16_threshold_functor s d k _ t mx r hs' ht hm hf
+
+example : (functor .u16 .u8 .binReg 0 0 0).isSome = true := by decide
+
+/-- plane level: entry i of the plane `adaptive_impl` produces is the documented comparison of source entry i against
+    (threshold-surface entry i − constant) -/
+theorem C16_adaptive_plane (c : Ch) (inv : Bool) (mx cst : Int) (src thr : List Int) (i : Nat) (hi : i < src.length) (hl : thr.length = src.length)
+    (hc8 : c = .u8 ∨ c = .u16)
+    (hp : c.lo ≤ src.getD i 0 ∧ src.getD i 0 ≤ c.hi) (ht : c.lo ≤ thr.getD i 0 ∧ thr.getD i 0 ≤ c.hi)
+    (hm : c.lo ≤ mx ∧ mx ≤ c.hi) (hc : c.lo ≤ cst ∧ cst ≤ c.hi) :
+    (adaptivePlane c inv mx cst src thr).length = src.length
+    ∧ (adaptivePlane c inv mx cst src thr).getD i 0 = adaptiveSpec inv (src.getD i 0) (thr.getD i 0) mx cst := by
+  unfold adaptivePlane
+  refine ⟨by rw [List.length_map, List.length_zip, hl, Nat.min_self], ?_⟩
+  have hi2 : i < thr.length := by omega
+  have hz : i < (src.zip thr).length := by rw [List.length_zip, hl, Nat.min_self]; exact hi
+  rw [List.getD_eq_getElem?_getD, List.getElem?_map, List.getElem?_eq_getElem hz, List.getElem_zip]
+  simp only [Option.map_some, Option.getD_some]
+  rw [List.getD_eq_getElem?_getD, List.getElem?_eq_getElem hi] at hp ⊢
+  rw [List.getD_eq_getElem?_getD, List.getElem?_eq_getElem hi2] at ht ⊢
+  simp only [Option.getD_some] at hp ht ⊢
+  cases hf : adaptiveFunctor c inv src[i] thr[i] mx cst with
+  | none => rcases hc8 with rfl | rfl <;> simp [adaptiveFunctor] at hf
+  | some r => exact C16_adaptive_functor c inv _ _ mx cst r hp ht hm hc hf
+
+/-- why the judge's Spec of the `gaussian` threshold surface is `min − 1 ≤ T ≤ max` (`gaussSurfaceOk`): a combination of the window values
+    with non-negative weights lies between (total weight)·min and (total weight)·max (integer weights: any common scaling of the kernel) -/
+theorem C16_adaptive_convex_bounds (wv : List (Int × Int)) (lo hi : Int)
+    (hw : ∀ p ∈ wv, 0 ≤ p.1 ∧ lo ≤ p.2 ∧ p.2 ≤ hi) :
+    (wv.map (·.1)).sum * lo ≤ (wv.map fun p => p.1 * p.2).sum ∧ (wv.map fun p => p.1 * p.2).sum ≤ (wv.map (·.1)).sum * hi := by
+  induction wv with
+  | nil => simp
+  | cons p ps ih =>
+    obtain ⟨h0, h1, h2⟩ := hw p List.mem_cons_self
+    have ih' := ih (fun q hq => hw q (List.mem_cons_of_mem _ hq))
+    simp only [List.map_cons, List.sum_cons, Int.add_mul]
+    have a := Int.mul_le_mul_of_nonneg_left h1 h0
+    have b := Int.mul_le_mul_of_nonneg_left h2 h0
+    omega
+
+example : ∀ p ∈ [((1 : Int), (10 : Int)), (2, 30), (1, 20)], 0 ≤ p.1 ∧ (10 : Int) ≤ p.2 ∧ p.2 ≤ 30 := by decide
+
 /-! ### Otsu -/
 
 /-- the histogram index computed from the scanned min/max lies in [0,255] (generated expression) -/
@@ -618,6 +675,32 @@ theorem C16_opening_le_src_le_closing_list (w h : Nat) (ker : List Int) (ks cy c
       exact erodeP_congr (imagePts w h) (nbK ker ks cy cx) _ _ _ (eD _ hp) eD
     rw [e, hsrc]; exact L.2
 
+/-- erode^n ≤ src ≤ dilate^n for the row-major planes `erode` / `dilate` return: ANY structuring element, any number of iterations,
+    every image size, every pixel -/
+theorem C16_erode_le_src_le_dilate_list (w h : Nat) (ker : List Int) (ks cy cx n : Nat) (plane : List Int)
+    (x y : Nat) (hx : x < w) (hy : y < h) :
+    (erode w h ker ks cy cx n plane).getD (y * w + x) 0 ≤ plane.getD (y * w + x) 0
+    ∧ plane.getD (y * w + x) 0 ≤ (dilate w h ker ks cy cx n plane).getD (y * w + x) 0 := by
+  have step : ∀ (d : Bool) (p : List Int), (morph w h ker ks cy cx d p).getD (y * w + x) 0
+      = morphAt (imgFn w p) w h ker ks cy cx d x y ∧ p.getD (y * w + x) 0 = imgFn w p (x : Int) (y : Int) := by
+    intro d p
+    refine ⟨(C16_morph_list w h ker ks cy cx d p).2 x y hx hy, ?_⟩
+    unfold imgFn; rw [if_pos ⟨by omega, by omega⟩]; simp
+  unfold erode dilate
+  induction n generalizing plane with
+  | zero => exact ⟨Int.le_refl _, Int.le_refl _⟩
+  | succ n ih =>
+    simp only [iterate]
+    have h1 := ih (morph w h ker ks cy cx false plane)
+    have h2 := ih (morph w h ker ks cy cx true plane)
+    have e1 := step false plane
+    have e2 := step true plane
+    have a := C16_morph_is_erode_dilate (imgFn w plane) w h ker ks cy cx x y
+    have b := C16_erode_le_src_le_dilate (imagePts w h) (nbK ker ks cy cx) (fun p => imgFn w plane p.1 p.2) ((x : Int), (y : Int))
+    simp only at b
+    rw [← a.1, ← a.2, ← e1.2, ← e1.1, ← e2.1] at b
+    exact ⟨Int.le_trans h1.1 b.1, Int.le_trans b.2 h2.2⟩
+
 /-- regression witness of the fixed finding C16-morph-se-transposed (f4ff363): a horizontal 1×3 line (a symmetric
     structuring element) dilates a single bright pixel HORIZONTALLY, in the model of the code and in the Spec alike -/
 theorem C16_se_orientation_witness :
@@ -693,6 +776,18 @@ theorem C16_median (src : Int → Int → Int) (w h k : Nat) (x y : Nat) (hx : x
       (C15.clampI 0 ((h : Int) - 1) ((y : Int) + ((0 : Nat) : Int) - ((k / 2 : Nat) : Int))))
   simp only [List.mem_flatten, List.mem_map, List.mem_range]
   exact ⟨_, ⟨0, hk, rfl⟩, List.mem_map.mpr ⟨0, List.mem_range.mpr hk, rfl⟩⟩
+
+/-- plane level: `median_filter` on a row-major plane has w·h entries and every entry is a true median of the k×k neighbourhood of its
+    pixel under edge replication -/
+theorem C16_median_filter_list (w h k : Nat) (plane : List Int) (hk : 0 < k) :
+    (medianFilter w h k plane).length = h * w
+    ∧ ∀ x y, x < w → y < h →
+        isMedian (medianWindowSpec (imgFn w plane) w h k x y) ((medianFilter w h k plane).getD (y * w + x) 0) = true := by
+  unfold medianFilter
+  have g := flatten_grid w (fun x y => medianAt (imgFn w plane) w h k x y) h
+  refine ⟨g.1, fun x y hx hy => ?_⟩
+  rw [g.2 x y hx hy]
+  exact C16_median (imgFn w plane) w h k x y hx hy hk
 
 /-! ### non-vacuity -/
 
